@@ -56,7 +56,7 @@ def main (args : List String) : IO UInt32 := do
     lineLoop stdin stdout HelpersEng.init HelpersEng.step
     return 0
   | "restrict" :: rest =>
-    lineLoop stdin stdout (RestrictEng.init (rest.contains "selfcheck") (rest.contains "exclude-reorder-defect") (rest.contains "include-merge-sets-defect")) RestrictEng.step
+    lineLoop stdin stdout (RestrictEng.init (rest.contains "selfcheck")) RestrictEng.step
     return 0
   | ["readonly"] =>
     lineLoop stdin stdout () ConcEng.stepRO
